@@ -111,7 +111,8 @@ Lex(s, i, acc) ==
           nxt == IF j <= Len(s) THEN Ch(s, j) ELSE ""
       IN IF nxt \in {".", "e", "E", "p", "P", "_", "x", "X", "o", "O", "b", "B"} THEN LexRes("unspec", acc, "number")
          ELSE IF Ch(s, b) = "0" /\ j - b > 1 THEN LexRes("unspec", acc, "number")
-         ELSE IF j - b > 9 THEN LexRes("unspec", acc, "number")
+         ELSE IF j - b > 18 THEN LexRes("unspec", acc, "number")
+         ELSE IF j - b > 9 THEN Lex(s, j, Append(acc, Tok("bigint", (IF c = "-" THEN "-" ELSE "") \o SubSeq(s, b, j - 1), 0)))
          ELSE Lex(s, j, Append(acc, Tok("int", "", (IF c = "-" THEN -1 ELSE 1) * DecVal(s, b, j, 0))))
     ELSE IF c = "-" THEN
       IF i + 1 <= Len(s) /\ Ident0(Ch(s, i + 1))
@@ -153,6 +154,7 @@ ReadForm(toks, p, ph) ==
   IF p > Len(toks) THEN RR("malformed", NilV, p, "underflow")
   ELSE LET t == toks[p] IN
     IF t.k = "int" THEN RR("ok", IntV(t.i), p + 1, "")
+    ELSE IF t.k = "bigint" THEN RR("ok", BigIntV(t.s), p + 1, "")
     ELSE IF t.k = "str" THEN RR("ok", StrV(t.s), p + 1, "")
     ELSE IF t.k = "kw" THEN RR("ok", KwV(t.s), p + 1, "")
     ELSE IF t.k = "id" THEN
@@ -252,7 +254,7 @@ RECURSIVE PrStr(_)
 PrStr(v) ==
   CASE v.t = "nil" -> "nil"
     [] v.t = "bool" -> IF v.i = 1 THEN "true" ELSE "false"
-    [] v.t = "int" -> ToString(v.i)
+    [] v.t = "int" -> IF v.s # "" THEN v.s ELSE ToString(v.i)
     [] v.t = "str" -> PrintStr(v.s)
     [] v.t = "kw" -> ":" \o v.s
     [] v.t = "sym" -> v.s
